@@ -10,7 +10,7 @@ import itertools
 import numpy as np
 
 from checks import specgen as SG
-from checks.common import hash_tag, relayout
+from checks.common import hash_tag, relayout, xf_build, xf_names
 from qmc import gen as G
 from qmc import oracle as O
 from qmc.loader import load
@@ -65,6 +65,13 @@ def cases(tier, seed):
         for mask in G.COMPONENT_MASKS:
             out.append({"key": f"full/mask/{m}x{n}/{G.mask_name(mask)}", "entry": "classical_qsvd_full", "m": m, "n": n, "vals": None, "kU": "mask", "kV": "mask", "row": 0, "R": None, "mask": mask})
             out.append({"key": f"trunc/mask/{m}x{n}/{G.mask_name(mask)}/R=1", "entry": "classical_qsvd", "m": m, "n": n, "vals": None, "kU": "mask", "kV": "mask", "row": 0, "R": 1, "mask": mask})
+    # unusual-but-legal variants (component supports, ties, gradings, circulant/Toeplitz, special matrices, layouts); spectrum from the oracle
+    for m, n in itertools.product(range(1, 5), repeat=2):
+        for nm in xf_names(m, n):
+            if nm in ("rowgraded", "colgraded"):
+                continue  # graded rectangular spectra: vectors ill-determined (DESIGN section 8 item 13)
+            out.append({"key": f"full/xf/{m}x{n}/{nm}", "entry": "classical_qsvd_full", "m": m, "n": n, "vals": None, "kU": "mask", "kV": "mask", "row": 0, "R": None, "xf": nm})
+            out.append({"key": f"trunc/xf/{m}x{n}/{nm}/R=1", "entry": "classical_qsvd", "m": m, "n": n, "vals": None, "kU": "mask", "kV": "mask", "row": 0, "R": 1, "xf": nm})
     # enumerated list of larger shapes, simple spectra
     for (m, n) in ((9, 7), (7, 9), (12, 12), (17, 5), (5, 17), (33, 2), (2, 33)):
         p = min(m, n)
@@ -80,10 +87,14 @@ def run_case(case, seed):
     m, n, vals, R = case["m"], case["n"], case["vals"], case["R"]
     p = min(m, n)
     fill = G.Fill(seed + 31 * case["row"], stream=hash_tag(f"{m}x{n}/{case['kU']}/{case['row']}"))
-    if case.get("mask"):
-        B_ = fill.quat_int(m, n, -4, 4).astype(float)
-        B_[B_ == 0] = 2.0
-        A = G.apply_component_mask(B_, case["mask"])
+    if case.get("mask") or case.get("xf"):
+        if case.get("xf"):
+            A, lay_ = xf_build(case["xf"], m, n, fill)
+            case = dict(case, lay=lay_)
+        else:
+            B_ = fill.quat_int(m, n, -4, 4).astype(float)
+            B_[B_ == 0] = 2.0
+            A = G.apply_component_mask(B_, case["mask"])
         sv_ = O.svals(A)
         vals = [float(v) if v > 1e-12 * max(sv_[0], 1.0) else 0.0 for v in sv_]
         # treat numerically coincident values as one cluster
